@@ -48,6 +48,8 @@ pub enum Exp {
     Past(u32),
     Now,
     Future(u32),
+    /// the expiration already stored for this (holder, spender) pair, if any
+    Same,
 }
 
 #[derive(Serialize, Deserialize, Clone, Debug, PartialEq, Eq, Hash)]
@@ -306,6 +308,13 @@ impl TExec {
                     Exp::Past(k) => seq.saturating_sub((*k).max(1)),
                     Exp::Now => seq,
                     Exp::Future(k) => seq + *k,
+                    Exp::Same => match self.m.allowance.get(&(fi, si)) {
+                        Some((_, ex)) if *ex >= seq => {
+                            ctx.count("probe.reapprove_with_the_stored_expiration");
+                            *ex
+                        }
+                        _ => seq + 20,
+                    },
                 };
                 let args: SVec<Val> = (self.p[fi].clone(), self.p[si].clone(), a, e).into_val(&env);
                 let alt: SVec<Val> = (self.p[fi].clone(), self.p[si].clone(), a.wrapping_add(1), e).into_val(&env);
@@ -572,7 +581,8 @@ impl World for WorldT {
                     from: holder(rng),
                     spender: anyp(rng),
                     amount: amt(rng, true),
-                    exp: match rng.weighted(&[2, 4, 6, 3, 1]) {
+                    exp: match rng.weighted(&[2, 4, 6, 3, 1, 3]) {
+                        5 => Exp::Same,
                         0 => Exp::Past(rng.range(1, 3) as u32),
                         1 => Exp::Now,
                         2 => Exp::Future(rng.range(1, 5) as u32),
